@@ -232,8 +232,8 @@ fn call_strat() -> impl Strategy<Value = Call> {
         0u8..9,
         prop::collection::vec(edge_usize(), 0..7),
         prop::collection::vec(edge_usize(), 0..5),
-        0u8..7,
-        0u8..5,
+        prop_oneof![8 => 0u8..7, 1 => 30u8..40, 1 => 60u8..80],
+        prop_oneof![8 => 0u8..5, 1 => 30u8..40],
         edge_usize(),
         any::<bool>(),
         0u8..3,
@@ -443,7 +443,44 @@ fn json_case<CS: BbsCiphersuite>(rep: &Report, ck: &str, h: &Honest, c: &JsonCas
     Ok(())
 }
 
+/// first thing in the run: all workers call verify / sign / proof_verify with message counts from different
+/// size classes at the same time (process-wide caches are cold and extended concurrently)
+fn cold_start_contention(ctx: &Ctx, rep: &Report) {
+    let ck = "cold-start-contention";
+    let sizes = [70usize, 40, 3, 100, 33, 65, 10, 130, 20, 96, 31, 64, 50, 17, 80, 128];
+    let r = contend(ck, ctx.workers.max(4), ctx.tier.pick(3, 10), |t, round| {
+        let l = sizes[(t + round * 7) % sizes.len()];
+        let suite = if (t / 2 + round) % 2 == 0 { SuiteId::Sha256 } else { SuiteId::Shake256 };
+        with_suite!(suite, CS => {
+            let kp = KeyPair::<BBSplus<CS>>::generate(&[t as u8 + 9; 32], None, None).unwrap();
+            let msgs: Vec<Vec<u8>> = (0..l).map(|j| vec![j as u8; 3]).collect();
+            let inp = || json!({"thread": t, "round": round, "L": l, "suite": suite.name()});
+            let mut sigb = vec![];
+            call(rep, ck, "sign(under contention)", l + 8, inp, || match Signature::<BBSplus<CS>>::sign(Some(&msgs), kp.private_key(), kp.public_key(), None) { Ok(s) => { sigb = s.to_bytes().to_vec(); true } Err(_) => false })?;
+            if let Ok(a) = <[u8; 80]>::try_from(sigb.as_slice()) {
+                let s = Signature::<BBSplus<CS>>::from_bytes(&a).unwrap();
+                call(rep, ck, "verify(under contention)", l + 8, inp, || s.verify(kp.public_key(), Some(&msgs), None).is_ok())?;
+                let idx: Vec<usize> = (0..l).step_by(3).collect();
+                let mut pb = vec![];
+                call(rep, ck, "proof_gen(under contention)", l + 8, inp, || match PoKSignature::<BBSplus<CS>>::proof_gen(kp.public_key(), &a, None, None, Some(&msgs), Some(&idx)) { Ok(p) => { pb = p.to_bytes(); true } Err(_) => false })?;
+                if let Ok(p) = PoKSignature::<BBSplus<CS>>::from_bytes(&pb) {
+                    let dm: Vec<Vec<u8>> = idx.iter().map(|&i| msgs[i].clone()).collect();
+                    call(rep, ck, "proof_verify(under contention)", l + 8, inp, || p.proof_verify(kp.public_key(), Some(&dm), Some(&idx), None, None).is_ok())?;
+                }
+            }
+            let cm: Vec<Vec<u8>> = msgs.iter().take(l / 2).cloned().collect();
+            call(rep, ck, "commit(under contention)", l + 8, inp, || Commitment::<BBSplus<CS>>::commit(Some(&cm)).is_ok())?;
+            rep.nontrivial(ck, &json!({"t": t, "round": round}));
+            Ok(())
+        })
+    });
+    if let Err(f) = r {
+        rep.add_violation(f);
+    }
+}
+
 pub fn run(ctx: &Ctx, rep: &Report) -> Meta {
+    cold_start_contention(ctx, rep);
     let hs = [honest(SuiteId::Sha256), honest(SuiteId::Shake256)];
     // (1) every length 0..=1024 (thorough: ..=4096 in steps), all byte classes, all decoders
     let maxlen = ctx.tier.pick(1024usize, 2048usize);
@@ -485,7 +522,13 @@ pub fn run(ctx: &Ctx, rep: &Report) -> Meta {
     }
 }
 
-pub fn replay(_ctx: &Ctx, rep: &Report, ck: &str, case: &Value) -> CheckResult {
+pub fn replay(ctx: &Ctx, rep: &Report, ck: &str, case: &Value) -> CheckResult {
+    // contention checks are replayed as a whole (the schedule is part of the case)
+    if ck == "cold-start-contention" {
+        let before = rep.violation_count();
+        cold_start_contention(ctx, rep);
+        return if rep.violation_count() > before { Err(Fail { check: ck.into(), site: "reproduced-under-contention".into(), msg: "the contention check fails again".into(), case: case.clone() }) } else { Ok(()) };
+    }
     let perr = |e: String| Fail { check: ck.into(), site: "replay-parse".into(), msg: e, case: case.clone() };
     match ck {
         "index-lists-and-counts" => {
